@@ -272,6 +272,47 @@ pub fn run(rep: &mut Rep) {
             standalone(rep, "make_credential::Extensions", &ext);
         }
     }
+    // (c2) the same tail when the authenticator data is nearly full: whatever is returned with Ok
+    //      must still end in one complete canonical map
+    for room in 0..48usize {
+        for mask in 1..(1u64 << N_MC_EXT) {
+            case += 1;
+            if !rep.mine(case) {
+                continue;
+            }
+            let mut rng = Rng::derive(seed, "c03c2", case);
+            let ext = mc_extensions(&mut rng, mask);
+            let hash = [0x3cu8; 32];
+            // 37 header + 16 aaguid + 2 length + id + 77 key = 676 - room
+            let idl = 676 - room - 37 - 16 - 2 - 77;
+            let (aaguid, id, key) = (rng.bytes(16), rng.bytes(idl), rng.bytes(77));
+            let ad = make_credential::AuthenticatorData {
+                rp_id_hash: &hash,
+                flags: ctap2::AuthenticatorDataFlags::EXTENSION_DATA | ctap2::AuthenticatorDataFlags::ATTESTED_CREDENTIAL_DATA,
+                sign_count: rng.u64() as u32,
+                attested_credential_data: Some(make_credential::AttestedCredentialData {
+                    aaguid: &aaguid,
+                    credential_id: &id,
+                    credential_public_key: &key,
+                }),
+                extensions: Some(ext),
+            };
+            if !rep.begin("authdata-extension-tail/nearly-full") {
+                continue;
+            }
+            let prefix = 676 - room;
+            match guard(|| ad.serialize()) {
+                Ok(Ok(b)) if b.len() > prefix => check(rep, "authData.extensions(mc,nearly-full)", &b[prefix..]),
+                Ok(Ok(b)) => rep.violation(
+                    "C03|authData(mc,nearly-full)|extension-map-missing",
+                    format!("Ok with {} bytes but attested data alone is {} bytes and extensions were supplied", b.len(), prefix),
+                    &[],
+                ),
+                Ok(Err(_)) => rep.count("authdata_nearly_full_refused", 1),
+                Err(p) => rep.violation(&format!("C03|authData(mc)|panic|{}", panic_site(&p)), p, &[]),
+            }
+        }
+    }
     for mask in 0..(1u64 << N_GA_EXT) {
         for _ in 0..reps * rep.nshards {
             case += 1;
